@@ -397,7 +397,7 @@ func (vc *VC) zero(t types.Type) Val {
 			return bad(t, "array of composite elements")
 		}
 		ez, _ := flatten(vc.zero(u.Elem()))
-		return Val{K: KArray, T: t, S: fmt.Sprintf("((as const %s) %s)", ls[0].sort, ez[0])}
+		return Val{K: KArray, T: t, S: vc.sc.constArray(ls[0].sort, ez[0])}
 	case *types.Tuple:
 		v := Val{K: KTuple, T: t}
 		for i := 0; i < u.Len(); i++ {
